@@ -104,3 +104,59 @@ func runPivotPair(r *ev.Run) {
 		}
 	}
 }
+
+// runPivotDisconnect: the operator tells a parent to disconnect a pivot child (at depth 1
+// and at depth 2); the parent fetches the task and answers "done".  That answer is the
+// task's final reply: afterwards its request id is accepted by nobody - not by the parent,
+// whose task it was, and not by the child it named.
+func runPivotDisconnect(r *ev.Run) {
+	sleep := func(d, j uint32) []byte { w := &demonwire.W{}; w.I32(d).I32(j); return w.B }
+	for parent := 0; parent <= 1; parent++ {
+		w, err := c08.Build([]uint32{0xa1, 0xc2, 0xd3}, []int{-1, 0, 1})
+		if err != nil {
+			r.Violate("pivot/harness", err.Error(), nil)
+			continue
+		}
+		ts := w.TS()
+		child := parent + 1
+		req := uint32(0x5700 + parent)
+		if p := ts.Task(w.ID(parent), fmt.Sprintf("%08x", req), agent.COMMAND_PIVOT, map[string]any{
+			"Command": fmt.Sprint(agent.DEMON_PIVOT_SMB_DISCONNECT), "Param": fmt.Sprintf("%08x", w.ID(child))}); p != nil {
+			r.Violate("pivot/panic", fmt.Sprint(p), nil)
+			ts.Close()
+			continue
+		}
+		ts.CheckIn(w.ID(0), 1) // the first hop fetches (the task itself, or its wrapper)
+		done := (&demonwire.W{}).I32(agent.DEMON_PIVOT_SMB_DISCONNECT).I32(1).I32(w.ID(child)).B
+		w.Send(parent, demonwire.Sub{Cmd: agent.COMMAND_PIVOT, ReqID: req, Body: done})
+		r.Eval(1)
+		for _, from := range []int{parent, child} {
+			a := ts.Agent(w.ID(from))
+			if from == child {
+				a.Active = true // (a disconnected child's session is inactive; the question is the id, not the flag)
+			}
+			a.Info.SleepDelay = 2
+			ts.Rec.Take()
+			if from == parent {
+				w.Send(from, demonwire.Sub{Cmd: agent.COMMAND_SLEEP, ReqID: req, Body: sleep(uint32(60+from), 3)})
+			} else {
+				// the child is no longer linked: it would have to reach the teamserver directly
+				ts.CheckIn(w.ID(from), byte(from+1), demonwire.Sub{Cmd: agent.COMMAND_SLEEP, ReqID: req, Body: sleep(uint32(60+from), 3)})
+			}
+			hit := a.Info.SleepDelay == 60+from
+			for _, e := range ts.Rec.Take() {
+				if e.Call == "AgentConsole" && strings.Contains(e.Arg, fmt.Sprintf("%d seconds", 60+from)) {
+					hit = true
+				}
+			}
+			who := map[bool]string{true: "parent", false: "child"}[from == parent]
+			if hit {
+				r.Violate("pivot/id-accepted-after-final/disconnect/"+who, fmt.Sprintf("the parent %08x answered its 'pivot disconnect %08x' task (request id %x) with success; a later callback with that id from the %s is acted upon", w.ID(parent), w.ID(child), req, who), map[string]any{"parent_depth": parent})
+			} else {
+				r.Outcome("pivot/disconnect/id-dropped-after-final/" + who)
+			}
+		}
+		ts.Close()
+	}
+}
+
